@@ -304,6 +304,26 @@ def _native_probe(which, nasties=None):
                 for label, obj, attr in carriers(sl):
                     if getattr(obj, attr) != nasty:
                         return (True, "%s = %r reads back %r" % (label, nasty, getattr(obj, attr)))
+            # addresses that differ only in spelling (percent-encoding, case, trailing slash, surrounding blanks) are different data
+            spellings = ["http://h/?q=a&b=1", "http://h/?q=a%26b=1", "http://h/%3C", "http://h/<", "http://H/", "http://h/", "http://h", "http://h/ ", " http://h/",
+                         "http://h/%41", "http://h/A", "http://h/a", "http://h/%", "http://h/%25", "HTTP://h/", "http://h/#", "http://h/?", "mailto:a@b", "mailto:A@b"]
+            sl = prs.slides.add_slide(prs.slide_layouts[6])
+            para = sl.shapes.add_textbox(0, 0, 10, 10).text_frame.paragraphs[0]
+            runs = []
+            for u in spellings:
+                r_ = para.add_run()
+                r_.text = "x"
+                r_.hyperlink.address = u
+                runs.append(r_)
+            shp_links = []
+            for u in spellings:
+                sh_ = sl.shapes.add_shape(1, 0, 0, 10, 10)
+                sh_.click_action.hyperlink.address = u
+                shp_links.append(sh_)
+            for u, r_, sh_ in zip(spellings, runs, shp_links):
+                if r_.hyperlink.address != u or sh_.click_action.hyperlink.address != u:
+                    return (True, "among %d links on one slide, address %r reads back %r (run) / %r (shape)" % (len(spellings), u, r_.hyperlink.address, sh_.click_action.hyperlink.address))
+            n_spell_slide = len(prs.slides) - 1
             cp = prs.core_properties
             for attr in ("author", "title", "subject", "keywords", "comments", "category", "content_status", "identifier", "language", "last_modified_by", "version"):
                 setattr(cp, attr, nasties[(len(attr) * 7) % len(nasties)])
@@ -314,6 +334,11 @@ def _native_probe(which, nasties=None):
                 for label, obj, attr in carriers(prs2.slides[k + 1]):
                     if getattr(obj, attr) != nasty:
                         return (True, "%s = %r reads %r after save and re-open" % (label, nasty, getattr(obj, attr)))
+            sl2 = prs2.slides[n_spell_slide]
+            got = [r_.hyperlink.address for r_ in sl2.shapes[0].text_frame.paragraphs[0].runs] + [x.click_action.hyperlink.address for x in list(sl2.shapes)[1:]]
+            if got != spellings + spellings:
+                bad_i = [i for i, (a, b) in enumerate(zip(got, spellings + spellings)) if a != b][:1]
+                return (True, "after save and re-open, link %s reads %r, assigned %r" % (bad_i, got[bad_i[0]] if bad_i else got, (spellings + spellings)[bad_i[0]] if bad_i else spellings))
             for attr in ("author", "title", "subject", "keywords", "comments", "category", "content_status", "identifier", "language", "last_modified_by", "version"):
                 want = nasties[(len(attr) * 7) % len(nasties)]
                 if getattr(prs2.core_properties, attr) != want:
